@@ -13,6 +13,7 @@ import (
 	"sync"
 	"sync/atomic"
 	"testing"
+	"time"
 
 	"github.com/tailscale/setec/client/setec"
 
@@ -232,6 +233,64 @@ func checkC13(t *testing.T, env *report.Env, rep *report.Report) {
 	}
 	fileCacheCrashes(rep)
 	cacheFailures(rep)
+	shutdownFlush(rep)
+}
+
+// shutdownFlush: when the poller shuts down the cache is rewritten as one complete document,
+// so last-access stamps of reads since the last install survive a restart.
+func shutdownFlush(rep *report.Report) {
+	sec := rep.Add(&report.Section{Name: "poller-shutdown-flush", Engine: "enum", Exhaustive: true, Extra: map[string]int64{},
+		Rule: "stores with a running poller (harness ticker): {read / lookup+read / nothing} at a later clock value, then Close; the cache document after Close must hold every known secret with its current version, bytes and last-access stamp; non-trivial = runs with a read after the last install"})
+	for _, withLookup := range []bool{false, true} {
+		for _, reads := range []int{0, 1, 2} {
+			clock := epoch
+			svc := NewSvc()
+			svc.Put("d")
+			svc.Put("u")
+			c := &HCache{}
+			st, err := setec.NewStore(context.Background(), setec.StoreConfig{Client: svc, Secrets: []string{"d"}, AllowLookup: true, Cache: c,
+				PollTicker: &hTicker{ch: make(chan time.Time)}, Logf: func(string, ...any) {}, TimeNow: func() time.Time { return clock }})
+			if err != nil {
+				panic(err)
+			}
+			desc := fmt.Sprintf("lookup=%v reads=%d", withLookup, reads)
+			sec.Evaluations++
+			names := []string{"d"}
+			if withLookup {
+				clock = clock.Add(10 * time.Second)
+				if _, err := st.LookupSecret(context.Background(), "u"); err != nil {
+					panic(err)
+				}
+				names = append(names, "u")
+			}
+			for i := 0; i < reads; i++ {
+				clock = clock.Add(7 * time.Second)
+				for _, n := range names {
+					st.Secret(n).Get()
+				}
+			}
+			if reads > 0 {
+				sec.Nontrivial++
+			}
+			want := st.VerifDump()
+			st.Close()
+			doc, perr := parseCache(c.Data)
+			if perr != nil {
+				rep.Violate(sec.Name, "shutdown-flush/unparsable: "+desc, desc+": "+perr.Error(), nil)
+				continue
+			}
+			for n, g := range want {
+				e := doc[n]
+				if e == nil || e.Secret == nil || e.Secret.Version != g.Version || string(e.Secret.Value) != g.Value {
+					rep.Violate(sec.Name, "shutdown-flush/incomplete: "+desc, fmt.Sprintf("%s: after Close the cache lacks the current value of %q", desc, n), nil)
+				} else if e.LastAccess != g.LastAccess {
+					rep.Violate(sec.Name, "shutdown-flush/last-access: "+desc, fmt.Sprintf("%s: after Close the cache holds last-access %d for %q; the store had %d (the document was not rewritten when the poller shut down)", desc, e.LastAccess, n, g.LastAccess), nil)
+				}
+			}
+			sec.Samples = append(sec.Samples, desc)
+		}
+	}
+	sec.States, sec.Transitions = sec.Evaluations, sec.Evaluations
 }
 
 // fileCacheCrashes: (b) every crash point and fault of FileCache.Write.
